@@ -1,4 +1,5 @@
 mod build;
+mod exotic;
 mod gram;
 mod histsim;
 mod hook;
@@ -588,6 +589,25 @@ fn replay_file(p: &Path, verbose: bool) -> i32 {
         return 0;
     }
     match engine {
+        "srcsim" if v.get("exotic").is_some() => {
+            let ty = v["exotic"]["ty"].as_u64().unwrap_or(0) as u8;
+            let sh = v["exotic"]["shape"].as_u64().unwrap_or(0) as u8;
+            let syms: Vec<u8> = v["exotic"]["syms"].as_array().map(|a| a.iter().map(|x| x.as_u64().unwrap_or(0) as u8).collect()).unwrap_or_default();
+            match exotic::check(ty, &syms, sh) {
+                Some((exp, obs)) => {
+                    if verbose {
+                        println!("reproduced property=C10 class=exotic-token-type\n token type={} shape={} length={}\n expected={}\n observed={}", exotic::TYPE_NAMES[ty as usize % 7], sh, syms.len(), exp, obs);
+                    }
+                    1
+                }
+                None => {
+                    if verbose {
+                        println!("not reproduced");
+                    }
+                    0
+                }
+            }
+        }
         "srcsim" if v.get("graphemes").is_some() => {
             let text = v["graphemes"]["text"].as_str().unwrap_or("").to_string();
             let shape = v["graphemes"]["shape"].as_u64().unwrap_or(0) as u8;
@@ -740,6 +760,33 @@ fn minimise_file(src: &Path, dst: &Path) {
         return;
     }
     match v["engine"].as_str().unwrap_or("") {
+        "srcsim" if v.get("exotic").is_some() => {
+            // shorten the token sequence while it still fails
+            let ty = v["exotic"]["ty"].as_u64().unwrap_or(0) as u8;
+            let sh = v["exotic"]["shape"].as_u64().unwrap_or(0) as u8;
+            let mut syms: Vec<u8> = v["exotic"]["syms"].as_array().map(|a| a.iter().map(|x| x.as_u64().unwrap_or(0) as u8).collect()).unwrap_or_default();
+            let mut step = syms.len() / 2;
+            while step >= 1 {
+                let mut cut = false;
+                if syms.len() >= step {
+                    let cand: Vec<u8> = syms[..syms.len() - step].to_vec();
+                    if exotic::check(ty, &cand, sh).is_some() {
+                        syms = cand;
+                        cut = true;
+                    }
+                }
+                if !cut {
+                    step /= 2;
+                }
+            }
+            let mut d = v.clone();
+            d["exotic"]["syms"] = json!(syms);
+            if let Some((e, o)) = exotic::check(ty, &syms, sh) {
+                d["expected"] = json!(e);
+                d["observed"] = json!(o);
+            }
+            std::fs::write(dst, serde_json::to_vec_pretty(&d).unwrap()).unwrap();
+        }
         "srcsim" if v.get("graphemes").is_some() => {
             // shrink the text cluster by cluster
             let shape = v["graphemes"]["shape"].as_u64().unwrap_or(0) as u8;
